@@ -15,11 +15,13 @@ From Coercion.C06 Require Import MonC06.
 Lemma all_true_upd l i : all_true l = true -> all_true (upd l i true) = true.
 Proof. intro H. unfold all_true. apply forallb_upd; auto. Qed.
 
-Lemma note_gate_mono sc m a ok : gate_open m = true -> gate_open (note sc m a ok) = true.
+Lemma note_start_gate sc m a : gate_open (note_start sc m a) = gate_open m.
+Proof. unfold gate_open, note_start. destruct (own_check sc a) as [[g i]|]; [destruct g|]; reflexivity. Qed.
+
+Lemma note_ok_gate_mono sc m a : gate_open m = true -> gate_open (note_ok sc m a) = true.
 Proof.
-  unfold gate_open, note. intro H. apply andb_true_iff in H as [H1 H2].
-  destruct (own_check sc a) as [[g i]|]; [destruct g|]; cbn [m_pre m_cont]; rewrite ?H1, ?H2; try reflexivity;
-    destruct ok; rewrite ?H1, ?H2, ?all_true_upd; auto.
+  unfold gate_open, note_ok. intro H. apply andb_true_iff in H as [H1 H2].
+  destruct (own_check sc a) as [[g i]|]; [destruct g|]; cbn [m_pre m_cont]; rewrite ?H1, ?H2, ?all_true_upd; auto.
 Qed.
 
 Lemma mstep_gate_mono sh sc m e m' :
@@ -29,11 +31,12 @@ Proof.
   - destruct (negb (in_scope sc a)); [injection H as <-; exact G|].
     destruct (passed m); [discriminate|].
     destruct (is_seq a && negb (gate_open m)); [discriminate|].
-    injection H as <-. now apply note_gate_mono.
+    injection H as <-. now rewrite note_start_gate.
   - destruct (negb (in_scope sc a)); [injection H as <-; exact G|].
     destruct (passed m); [discriminate|].
-    destruct (passed (note sc m a (outcome_ok o)) && m_other (note sc m a (outcome_ok o))); [discriminate|].
-    injection H as <-. now apply note_gate_mono.
+    destruct (negb (outcome_ok o)); [injection H as <-; exact G|].
+    destruct (passed (note_ok sc m a) && m_other (note_ok sc m a)); [discriminate|].
+    injection H as <-. now apply note_ok_gate_mono.
   - injection H as <-. exact G.
   - injection H as <-. exact G.
   - destruct (final_code sh (fin_st fin) sc m); [|discriminate]. injection H as <-. exact G.
@@ -61,7 +64,7 @@ Proof.
     destruct (passed m); [discriminate|]. rewrite Hq in E. simpl in E.
     destruct (gate_open m) eqn:Go; simpl in E; [|discriminate].
     injection E as <-.
-    assert (G1 : gate_open (note sc m a false) = true) by now apply note_gate_mono.
+    assert (G1 : gate_open (note_start sc m a) = true) by now rewrite note_start_gate.
     rewrite (mfold_gate_mono _ _ _ _ _ H G1) in G. discriminate.
 Qed.
 
